@@ -14,6 +14,25 @@ CLAIMED = {
     note='Trusted: TLC, the transcription of the defining polynomial; the harness only dumps values (no comparison in Rust).',
     technique='TLA+ field definition model-checked exhaustively (TLC) + exhaustive trace validation of implementation tables',
     design='4/C10'),
+ 'C04': dict(
+    category='model_checking',
+    text='An independent executable RFC 6330 in TLA+ (Rfc6330.tla: field, Rand, Deg, Tuple, Enc, LDPC/HDPC from MT x GAMMA, '
+         'Gaussian elimination) is evaluated by TLC. For small K TLC solves the constraint system itself and every source and '
+         'repair packet of the real encoder must equal the spec value byte for byte; for every K\' TLC certifies that the '
+         'implementation\'s intermediate symbols satisfy every RFC relation (hence are the unique solution) and recomputes the '
+         'packets from them. Bounded (sampled ESIs, T<=4) but with an oracle that shares no code with the implementation.',
+    note='Trusted: TLC; tables V0..V3/Table 2 frozen in spec/Rfc6330Tables.tla (transcribed from the baseline tree); '
+         'invertibility of A above the K\' where TLC computes the rank; byte-column independence (C09) for larger T.',
+    technique='TLA+ reference specification of RFC 6330 evaluated by TLC; trace validation of encoder output (full solve / certificate)',
+    design='4/C04'),
+ 'C06': dict(
+    category='model_checking',
+    text='For each K\' (quick: 11 sizes incl. 1698, 8837, 56403; thorough: all 477) the real encoder is built by every route '
+         '(dense/sparse x direct/plan replay, cached plan, explicit plan); TLC checks every LDPC, HDPC and LT relation of the RFC on '
+         'the resulting intermediate symbols and that all routes agree; TLC also proves rank(A)=L from the spec for small K\'.',
+    note='Trusted: TLC, frozen tables. Construction failure (panic/None) is an event the spec rejects. T=1 (one case T=2).',
+    technique='TLC trace validation of intermediate symbols against the TLA+ pre-code relations; TLC rank computation (MC_Rank)',
+    design='4/C06'),
 }
 
 NOT_YET = 'check not built yet in this round (work in progress; see DESIGN.md section 8 for the order of work)'
@@ -65,7 +84,7 @@ def main():
 
 
 NA = {}
-HOOK_COMMITS = ['7b4caa9']
+HOOK_COMMITS = ['7b4caa9', '4fb854c']
 
 if __name__ == '__main__':
     main()
